@@ -194,7 +194,7 @@ class CdsModel(Case):
 
 class ChunkTwin(Case):
     """the same CDS built on the whole chromosome and on a sequence chunk."""
-    props = ("C07",)
+    props = ("C07", "C05")
     proved = False
     name = "bounded: chunk-relative CDS twin = chromosome CDS restricted to the chunk"
     func = CDS + ".chunk_relative_codon_locations"
